@@ -84,3 +84,45 @@ Theorem C05_pop_after_body_refuted : exists lbl st p s s' ev sg,
   run_src false lbl st p s = (s', ev, sg) /\ s' <> s.
 Proof. exact pop_after_body_refuted. Qed.
 Print Assumptions C05_pop_after_body_refuted.
+
+(* the context stack's accessor functions and the context manager, AS REGENERATED FROM jaxtyping/_storage.py and
+   jaxtyping/_decorator.py on every run (gen/StorageSrc.v, a term of model/SL.v): interpreting the source gives exactly the
+   stack operations the models above are built from, in every state of the thread's storage *)
+From JT Require Import model.SL gen.StorageSrc proofs.SLFacts.
+Theorem C05_stack_accessors_as_in_source_are_the_models_operations : forall s,
+  (forall args r s', run_acc storage_src "push_shape_memo" [SVDict args] s = Some (r, s') ->
+     abs_stack s' = push_memo (abs_stack s) (dA args)) /\
+  (forall r s', run_acc storage_src "pop_shape_memo" [] s = Some (r, s') ->
+     match abs_stack s with [] => r <> SRVal SVNone /\ s' = s | _ => r = SRVal SVNone /\ abs_stack s' = pop_memo (abs_stack s) end) /\
+  (forall v s', run_acc storage_src "get_shape_memo" [] s = Some (SRVal v, s') ->
+     s' = s /\ fst (dec_frame v) = get_memo (abs_stack s)) /\
+  (forall a b c d r s', run_acc storage_src "set_shape_memo" [a; b; c; d] s = Some (r, s') ->
+     abs_stack s' = set_memo (abs_stack s) (fst (dec_frame (SVTuple [a; b; c; d])))).
+Proof. exact context_stack_ops_are_the_source. Qed.
+Print Assumptions C05_stack_accessors_as_in_source_are_the_models_operations.
+
+Theorem C05_context_manager_as_in_source_is_push_then_pop : forall self e1 e2 e3 s,
+  (forall r s', run_acc context_src "__enter__" [self] s = Some (r, s') ->
+     r = SRVal SVNone /\ abs_stack s' = push_memo (abs_stack s) [] /\
+     ps_stack (abs_store s') = (empty_memo, []) :: ps_stack (abs_store s) /\
+     ps_path (abs_store s') = ps_path (abs_store s) /\ ps_flat (abs_store s') = ps_flat (abs_store s)) /\
+  (forall r s', run_acc context_src "__exit__" [self; e1; e2; e3] s = Some (r, s') ->
+     match abs_stack s with
+     | [] => r <> SRVal SVNone /\ s' = s
+     | _ => r = SRVal SVNone /\ abs_stack s' = pop_memo (abs_stack s) /\
+            ps_path (abs_store s') = ps_path (abs_store s) /\ ps_flat (abs_store s') = ps_flat (abs_store s)
+     end).
+Proof. exact (fun self e1 e2 e3 s => conj (context_enter_is_push self s) (context_exit_is_pop self e1 e2 e3 s)). Qed.
+Print Assumptions C05_context_manager_as_in_source_is_push_then_pop.
+
+Theorem C05_context_object_as_in_source_is_stateless : forall self self' e1 e2 e3 e1' e2' e3' s,
+  run_acc context_src "__enter__" [self] s = run_acc context_src "__enter__" [self'] s /\
+  run_acc context_src "__exit__" [self; e1; e2; e3] s = run_acc context_src "__exit__" [self'; e1'; e2'; e3'] s /\
+  context_call_returns_new_object = true.
+Proof. exact context_object_is_stateless. Qed.
+Print Assumptions C05_context_object_as_in_source_is_stateless.
+
+Theorem C05_nested_context_blocks_as_in_source_restore_the_store : forall n s,
+  abs_store (exit_n n (enter_n n s)) = abs_store s.
+Proof. exact nested_context_blocks_restore. Qed.
+Print Assumptions C05_nested_context_blocks_as_in_source_restore_the_store.
